@@ -520,3 +520,118 @@ func (p *Program) CaseFieldTable(f *ssa.Function, caseFact func(val string) stri
 
 	return tab
 }
+
+// FieldOfLeaves reports whether v is a load of field `field` of a struct pointer X, where every
+// non-nil value X can be (through joins) matches one of the globs.
+func (p *Program) FieldOfLeaves(v ssa.Value, field string, globs ...string) bool {
+	v = Fwd(v)
+	if cv, ok := v.(*ssa.Convert); ok {
+		v = Fwd(cv.X) // string(b) / []byte(s)
+	}
+
+	load, ok := v.(*ssa.UnOp)
+	if !ok {
+		return false
+	}
+
+	fa, ok := load.X.(*ssa.FieldAddr)
+	if !ok {
+		return false
+	}
+
+	if _, fn := FieldOf(fa.X, fa.Field); fn != field {
+		return false
+	}
+
+	return p.LeavesMatch(fa.X, globs...)
+}
+
+// FlowsToReturn reports whether v is returned, directly or through value joins (phis) and
+// interface re-typing.
+func FlowsToReturn(v ssa.Value) bool {
+	seen := map[ssa.Value]bool{}
+
+	var walk func(v ssa.Value, d int) bool
+
+	walk = func(v ssa.Value, d int) bool {
+		if v == nil || seen[v] || d > 8 || v.Referrers() == nil {
+			return false
+		}
+
+		seen[v] = true
+
+		for _, r := range *v.Referrers() {
+			switch x := r.(type) {
+			case *ssa.Return:
+				return true
+			case *ssa.Phi:
+				if walk(x, d+1) {
+					return true
+				}
+			case *ssa.ChangeInterface:
+				if walk(x, d+1) {
+					return true
+				}
+			}
+		}
+
+		return false
+	}
+
+	return walk(v, 0)
+}
+
+// BodyWith finds the function body that plays a per-item / per-call role below f: the function
+// literal nested in f that contains an instruction selected by pred or, failing that, an unexported
+// function or method of the same package that f calls statically (left as a call by the normal form
+// because it defers) and that contains one. Depth 2.
+func (p *Program) BodyWith(f *ssa.Function, pred InstrPred) *ssa.Function {
+	if f == nil {
+		return nil
+	}
+
+	if g := ClosureWith(f, pred); g != nil {
+		return g
+	}
+
+	var search func(f *ssa.Function, depth int) *ssa.Function
+
+	search = func(f *ssa.Function, depth int) *ssa.Function {
+		for _, b := range f.Blocks {
+			for _, in := range b.Instrs {
+				call, ok := in.(*ssa.Call)
+				if !ok {
+					continue
+				}
+
+				g := call.Call.StaticCallee()
+				if g == nil || g.Parent() != nil || !isUnexported(g.Name()) || funcPkg(g) == nil || funcPkg(g) != funcPkg(rootFunc(f)) {
+					continue
+				}
+
+				body := bodyOf(g)
+				if body == nil {
+					continue
+				}
+
+				if len(Find(body, pred)) > 0 {
+					return body
+				}
+
+				if c := ClosureWith(body, pred); c != nil {
+					return c
+				}
+
+				if depth > 0 {
+					if r := search(body, depth-1); r != nil {
+						return r
+					}
+				}
+			}
+		}
+
+		return nil
+	}
+
+	return search(f, 1)
+}
